@@ -251,7 +251,8 @@ def run(ctx: core.Ctx) -> int:
                    + ", ".join(f"{n_} (line {l_})" for n_, l_ in stale) + ": after set_params changes the model, fit flattens and rebuilds the noise maps with the previous "
                    "model's controls", line=stale[0][1] if stale else None)
     # nearest_positive_definite floors the diagonal at a positive constant (names found by role)
-    npd = core.need(core.find_func(mod, "nearest_positive_definite"), "python.nearest_positive_definite")
+    npd, _moved = core.find_func_imported(ctx, mod, "nearest_positive_definite")
+    npd = core.need(npd, "python.nearest_positive_definite")
     consts = {}
     for s_ in ast.walk(npd):
         if isinstance(s_, ast.Assign) and len(s_.targets) == 1 and isinstance(s_.targets[0], ast.Name) and isinstance(s_.value, ast.Constant) \
